@@ -79,6 +79,39 @@ func main() {
 			checkSpecial(run, e)
 		}
 	}
+	// gzip_packed around big objects: the unpacked stream is longer than any single chunk the decompressor or
+	// the reader hands out (32 KiB windows), so it has to be collected over many reads
+	for _, e := range reg.Entries {
+		if !e.IsStruct() || e.Name() == "objects.GzipPacked" || reg.ByCRC[0x3072cfa1] == nil {
+			continue
+		}
+		st := e.Type.Elem()
+		fi := -1
+		for i := 0; i < st.NumField(); i++ {
+			f := st.Field(i)
+			if tg := tlx.ParseTag(f); f.PkgPath == "" && !tg.Has && f.Type.Kind() == reflect.Slice && f.Type.Elem().Kind() == reflect.Uint8 {
+				fi = i
+				break
+			}
+		}
+		if fi < 0 {
+			continue
+		}
+		for _, n := range []int{32700, 32768, 40000, 65536, 200000} {
+			v, ok := g.Build(e.Type, 2, false)
+			if !ok {
+				break
+			}
+			b := make([]byte, n)
+			for i := range b {
+				b[i] = byte(i*131 + i/251) // hardly compressible
+			}
+			v.Elem().Field(fi).Set(reflect.ValueOf(b).Convert(st.Field(fi).Type))
+			gz := &objects.GzipPacked{Obj: v.Interface().(tl.Object)}
+			checkCase(run, reg.ByCRC[0x3072cfa1], tlx.Case{ID: fmt.Sprintf("objects.GzipPacked|around %s with a %d-byte field", e.Name(), n), Field: "Obj", Shape: fmt.Sprintf("big%d", n), V: reflect.ValueOf(gz), Devs: 1})
+		}
+		break // one carrier type is enough: the size of the stream is what matters
+	}
 	// history independence: every case encoded and decoded again, entries in reverse order; bytes and decoded
 	// value must be what the first pass saw (a per-type layout cache, a pooled buffer, a memoised conversion
 	// keyed too coarsely would make the answer depend on what was processed before)
